@@ -107,7 +107,7 @@ func c08CheckBatch(run *vlib.Run, cases []schemaCase) (map[int][]vlib.Violation,
 			out[rf.caseIdx] = append(out[rf.caseIdx], vlib.V(sig, "%s definition %s: "+format, append([]any{c.Format, rf.doc.Def}, args...)...))
 		}
 		if r.Panic != "" {
-			bad("panic:"+f, "generated code panicked on %s: %s", reqs[k].Doc, r.Panic)
+			bad("panic:"+f+nestedTag(c), "generated code panicked on %s: %s", reqs[k].Doc, r.Panic)
 			continue
 		}
 		if rf.fault == nil {
@@ -117,7 +117,7 @@ func c08CheckBatch(run *vlib.Run, cases []schemaCase) (map[int][]vlib.Violation,
 				if !r.HasStrict {
 					bad("no-strict-decoder:"+f, "no UnmarshalJSONStrict generated")
 				} else if r.StrictErr != "" {
-					bad("strict-false-positive:"+f+":"+errClass(r.StrictErr), "the strict decoder rejects the valid document %s: %s", rf.doc.JSON, r.StrictErr)
+					bad("strict-false-positive:"+f+":"+errClass(r.StrictErr)+nestedTag(c), "the strict decoder rejects the valid document %s: %s", rf.doc.JSON, r.StrictErr)
 				}
 			case "validate":
 				if !r.HasValidate {
@@ -156,7 +156,7 @@ func c08CheckBatch(run *vlib.Run, cases []schemaCase) (map[int][]vlib.Violation,
 				continue
 			}
 			if !mustReject && r.StrictErr != "" {
-				bad("strict-rejects-constraint-violation:"+f+":"+where, "the strict decoder rejects a type-correct document whose only fault is a %s at %s (that is Validate()'s job): %s", ft.Class, ft.Path, r.StrictErr)
+				bad("strict-rejects-constraint-violation:"+f+":"+where+nestedTag(c), "the strict decoder rejects a type-correct document whose only fault is a %s at %s (that is Validate()'s job): %s", ft.Class, ft.Path, r.StrictErr)
 			}
 		case "validate":
 			if r.StdErr != "" || !r.HasValidate {
